@@ -10,6 +10,7 @@ import (
 	"github.com/mithrandie/csvq/lib/option"
 	"github.com/mithrandie/csvq/lib/parser"
 	"github.com/mithrandie/csvq/lib/value"
+	"github.com/mithrandie/csvq/lib/vhook"
 
 	"github.com/mithrandie/ternary"
 )
@@ -23,12 +24,18 @@ var blockScopePool = sync.Pool{
 }
 
 func GetBlockScope() BlockScope {
+	if v := vhook.PoolGet("blockscope"); v != nil {
+		return v.(BlockScope)
+	}
 	scope := blockScopePool.Get().(BlockScope)
 	return scope
 }
 
 func PutBlockScope(scope BlockScope) {
 	scope.Clear()
+	if vhook.PoolPut("blockscope", scope) {
+		return
+	}
 	blockScopePool.Put(scope)
 }
 
@@ -39,12 +46,18 @@ var nodeScopePool = sync.Pool{
 }
 
 func GetNodeScope() NodeScope {
+	if v := vhook.PoolGet("nodescope"); v != nil {
+		return v.(NodeScope)
+	}
 	scope := nodeScopePool.Get().(NodeScope)
 	return scope
 }
 
 func PutNodeScope(scope NodeScope) {
 	scope.Clear()
+	if vhook.PoolPut("nodescope", scope) {
+		return
+	}
 	nodeScopePool.Put(scope)
 }
 
